@@ -309,6 +309,7 @@ func (e *Engine) driverA(t *core.Tape, cfg *core.Config, st *core.Stats, enumSch
 	}
 	// acceptable set for raise@k
 	var acc map[uint64]bool
+	var accMaxSteps int64
 	getAcc := func() map[uint64]bool {
 		if acc != nil {
 			return acc
@@ -322,13 +323,20 @@ func (e *Engine) driverA(t *core.Tape, cfg *core.Config, st *core.Stats, enumSch
 			for m := int64(1); m <= free.Steps; m++ {
 				r := model.RunSchedule(prog, bodies, sched, who, model.Options{FaultKind: model.FaultRaise, FaultAt: m, StoreRTL: rtl, MaxSteps: 400000})
 				acc[model.HashTrace(normTrace(r.Trace), "")] = true
+				if r.Steps > accMaxSteps {
+					accMaxSteps = r.Steps
+				}
 			}
 		}
 		return acc
 	}
 	fired := 0
 	check := func(k int64) *core.Violation {
-		r := runVM(proto, bodies, sched, who, hostapi.VRaise, k, S*4+10000, o)
+		budget := S*4 + 10000
+		if budget < 150000 {
+			budget = 150000
+		}
+		r := runVM(proto, bodies, sched, who, hostapi.VRaise, k, budget, o)
 		st.Evals++
 		st.Steps += r.steps
 		st.D(model.HashTrace(r.trace, ""))
@@ -342,7 +350,13 @@ func (e *Engine) driverA(t *core.Tape, cfg *core.Config, st *core.Stats, enumSch
 			return core.Violationf("escape", "%s: Go panic left the Go API: %s\n%s", where, r.escaped, descS())
 		}
 		if r.h.Runaway {
-			return core.Violationf("runaway-after-fault", "%s: schedule did not finish\n%s", where, descS())
+			// a fault may steer a body into a much longer path; judge only when the model says every single-fault run is short
+			getAcc()
+			if accMaxSteps*60 >= budget {
+				st.Probe("long_fault_path_discarded")
+				return nil
+			}
+			return core.Violationf("runaway-after-fault", "%s: schedule did not finish within %d steps (longest single-fault model run: %d micro-steps)\n%s", where, budget, accMaxSteps, descS())
 		}
 		if len(r.h.Violations) > 0 {
 			return core.Violationf(vclass(r.h.Violations[0]), "%s: %s\n%s", where, r.h.Violations[0], descS())
